@@ -26,6 +26,7 @@ RELAY_STAGES = ['connect', 'banner', 'ehlo', 'helo', 'starttls', 'starttls-hands
 
 
 def cases(tier, seed, phase):
+    yield {'side': 'table'}
     reps = 1 if tier == 'quick' else 3
     for rep in range(reps):
         for p in SERVER_POINTS:
@@ -649,7 +650,23 @@ def run_http(case, model):
     return CaseResult(mismatch, hits, ('http', case['what'], case['rep']), ['http'])
 
 
+def run_table(case, model):
+    """The scope table extracted from the current source (harness/scopes.py, `ast`) against the model's table."""
+    from harness import scopes
+    table, problems = scopes.extract()
+    impl = scopes.render(table)
+    m = model.ask('timeouts table')
+    mismatch = None
+    if impl != m or problems:
+        diff = [x for x in impl.replace(' | ', ' ').split(' ') if x not in m.replace(' | ', ' ').split(' ')]
+        mismatch = {'op': 'timeouts table', 'impl': diff or impl, 'model': [x for x in m.replace(' | ', ' ').split(' ') if x not in impl.replace(' | ', ' ').split(' ')],
+                    'problems': problems[:5]}
+    return CaseResult(mismatch, [], ('table',), ['scope-table'])
+
+
 def run_case(case, model):
+    if case['side'] == 'table':
+        return run_table(case, model)
     import gevent
     try:
         gevent.get_hub().exception_stream = None
